@@ -87,7 +87,37 @@ CLUSTERS = [0, 1, 2, 3, 2 ** 32 - 2, 2 ** 32 - 1, 2 ** 32, 2 ** 32 + 1, 2 ** 40 
 
 def history(rng, facade, tgt, tr, bs, n_ops):
     ev = [{"ev": "reset", "bs": bs, "cap": num(tgt.cap)}]
+    kept = {}      # the caller's long-lived READ CAPACITY / INQUIRY command objects
     for _ in range(n_ops):
+        if rng.random() < 0.08:
+            # the target changes its geometry / identity; the caller re-issues the command object it kept
+            # (facade.execute(cmd); cmd.unmarshall()) and must see the new answer
+            m = rng.choice(["readcapacity10", "readcapacity16", "inquiry"])
+            if m == "inquiry":
+                tgt.ident = bytes(rng.choice(b"ABCDEFGH") for _ in range(8))
+            else:
+                tgt.cap = max(1, tgt.cap + rng.choice([-1, 1, 2 ** 32, 5]))
+                ev.append({"ev": "resize", "cap": num(tgt.cap)})
+            cls = METHODS[m][0]
+            exc = ""
+            try:
+                tgt.last = None
+                if m not in kept:
+                    kept[m] = getattr(facade, m)()
+                else:
+                    facade.execute(kept[m])
+                    kept[m].unmarshall()
+                cmd = kept[m]
+            except Exception as ex:
+                cmd, exc = None, type(ex).__name__
+            rec = tgt.last or {"cdb": [], "dout": [], "din_target": []}
+            res = {}
+            if cmd is not None and isinstance(cmd.result, dict) and cmd.result:
+                res = flatten({k: v for k, v in cmd.result.items() if k in ("returned_lba", "block_length", "t10_vendor_identification")})
+            ev.append({"ev": "io", "method": m, "cls": cls, "tr": tr, "a": {}, "data": [], "cdb": rec["cdb"], "dout": rec["dout"],
+                       "din_target": rec["din_target"], "din_seen": list(cmd.datain) if cmd is not None else [], "exc": exc,
+                       "res": res or {"#none": []}, "ident": list(tgt.ident), "reissued": True})
+            continue
         m = rng.choice(list(METHODS) if rng.random() < 0.15 else
                        ["read10", "read12", "read16", "write10", "write12", "write16", "writesame10", "writesame16"])
         cls, width = METHODS[m]
